@@ -32,6 +32,7 @@ ASSUMPTIONS = [
     "line modulo that prefix and leading blanks",
 ]
 NSHARDS = {'quick': 16, 'thorough': 16}
+RULE += (' Directed docstrings: comments in front of else / behind a decorator, wants whose lines are all indented, a left-out block in front of the doctest; every second text has gone through collection once before.')
 NUM_RE = re.compile(r'^\s*(\d+) (.*)$')
 
 
